@@ -1,6 +1,8 @@
-# sourced by ./check for C13: the whole check runs in a -race build
+# sourced by ./check for C13: the kinds that drive distinct instances from
+# several goroutines ("conc") run in a -race build; the reset/twin/margin/
+# wrapreset kinds use a single goroutine per case and run in the plain build
 if build race; then
-	VERIF_RACE=1 "$WORK/bin/verif-race" run -tier "$TIER" -seed "$SEED" -bin "$WORK/bin/verif-race" C13
+	VERIF_RACE=1 "$WORK/bin/verif-race" run -tier "$TIER" -seed "$SEED" -bin "$WORK/bin/verif-race" -plainbin "$WORK/bin/verif" C13
 	rc=$?
 else
 	echo "INCONCLUSIVE property=C13 reason=race build failed"
